@@ -278,10 +278,7 @@ impl PreferenceManager {
                 Err(e) => bail!("set_rules_dir: could not canonicalize path {}: {}", rules_dir.display(), e.to_string()),
                 Ok(rules_dir) =>  rules_dir,
             };
-            self.set_rules_dir(&rules_dir)?;
-            self.set_preference_files()?;
-            self.set_all_files(&rules_dir)?;
-            return Ok( () );
+            return self.initialize_with_dir(&rules_dir);
         }
         #[cfg(not(target_family = "wasm"))]
         let rules_dir = match rules_dir.canonicalize() {
@@ -289,10 +286,20 @@ impl PreferenceManager {
             Ok(rules_dir) =>  rules_dir,
         };
 
-        self.set_rules_dir(&rules_dir)?;
-        self.set_preference_files()?;
-        self.set_all_files(&rules_dir)?;
-        return Ok( () );
+        return self.initialize_with_dir(&rules_dir);
+    }
+
+    /// Do the work of initialize() -- if that fails, the previous rules dir stays in effect
+    fn initialize_with_dir(&mut self, rules_dir: &Path) -> Result<()> {
+        let old_rules_dir = self.rules_dir.clone();
+        let result = self.set_rules_dir(rules_dir)
+                .and_then(|_| self.set_preference_files())
+                .and_then(|_| self.set_all_files(rules_dir));
+        if result.is_err() {
+            // e.g., the dir exists but has no prefs.yaml -- don't leave the session pointing at a useless dir
+            self.rules_dir = old_rules_dir;
+        }
+        return result;
     }
 
 
